@@ -480,9 +480,22 @@ Fixpoint lax_history (f : lohg nat nat) (cs : list sx) : list sx :=
 Definition tbl_lax : list entry := [
   ("lax_history", a2 d_lohg (fun x => match x with L l => Some l | _ => None end)
      (fun f cs => L (lax_history f cs)));
+  ("lax_history_wide", a2 d_lohg (fun x => match x with L l => Some l | _ => None end)
+     (fun f cs => L (lax_history f cs)));
+  ("lax_history_unit", a2 d_lohg (fun x => match x with L l => Some l | _ => None end)
+     (fun f cs => L (lax_history f cs)));
   ("lax_json", a1 d_lohg (fun f => L [Sy (print_json (j_lohg f));
                                       e_bool (match uj_lohg (j_lohg f) with Some _ => true | None => false end)]));
   ("lhg_coequalizer", a1 d_lhg (fun h => e_rff (lhg_coequalizer VB h)));
+  (* the same operations run by the harness at other label types (wider than a word; zero-sized): same model *)
+  ("lhg_coequalizer_wide", a1 d_lhg (fun h => e_rff (lhg_coequalizer VB h)));
+  ("lhg_coequalizer_unit", a1 d_lhg (fun h => e_rff (lhg_coequalizer VB h)));
+  ("lhg_is_strict_wide", a1 d_lhg (fun h => e_bool (lhg_is_strict h)));
+  ("lhg_is_strict_unit", a1 d_lhg (fun h => e_bool (lhg_is_strict h)));
+  ("lhg_quotient_wide", a1 d_lhg (fun h => e_res (e_pair e_lhg e_q) (lhg_quotient VB Nat.eqb h)));
+  ("lhg_quotient_unit", a1 d_lhg (fun h => e_res (e_pair e_lhg e_q) (lhg_quotient VB Nat.eqb h)));
+  ("lohg_quotient_wide", a1 d_lohg (fun f => e_res (e_pair e_lohg e_q) (lohg_quotient VB Nat.eqb f)));
+  ("lohg_quotient_unit", a1 d_lohg (fun f => e_res (e_pair e_lohg e_q) (lohg_quotient VB Nat.eqb f)));
   ("lhg_is_strict", a1 d_lhg (fun h => e_bool (lhg_is_strict h)));
   ("lhg_quotient", a1 d_lhg (fun h => e_res (e_pair e_lhg e_q) (lhg_quotient VB Nat.eqb h)));
   ("lohg_quotient", a1 d_lohg (fun f => e_res (e_pair e_lohg e_q) (lohg_quotient VB Nat.eqb f)));
@@ -495,6 +508,8 @@ Definition tbl_lax : list entry := [
   ("lohg_singleton", a3 d_nat d_nats d_nats (fun x s t => e_lohg (lohg_singleton x s t)));
   ("lohg_identity", a1 d_nats (fun a => e_lohg (lohg_identity nat a)));
   ("lohg_spider", a3 d_ff d_ff d_nats (fun s t w => e_opt e_lohg (lohg_spider nat s t w)));
+  (* Spider::half_spider is a provided trait method: spider(s, identity, w) *)
+  ("lohg_half_spider", a2 d_ff d_nats (fun s w => e_res (e_opt e_lohg) (t <- ff_identity (target s) ;; Ok (lohg_spider nat s t w))));
   ("lohg_tensor", a2 d_lohg d_lohg (fun f g => e_lohg (lohg_tensor f g)));
   ("lohg_tensor_assign", a2 d_lohg d_lohg (fun f g => e_lohg (lohg_tensor_assign f g)));
   ("lohg_append", a2 d_lohg d_lohg (fun f g => e_pair e_lohg (e_pair e_nats e_nats) (lohg_append f g)));
